@@ -86,6 +86,9 @@ def _exec(sim, op):
             pid = sim.sel(str(props.get("name", "")), i, live_only=False)
             if pid is not None:
                 props["pid"] = pid
+        if "pid_short" in props:
+            from harness.simkernel import PID_BASE
+            props["pid"] = props.pop("pid_short") + PID_BASE
         if "pidany" in props:
             i = props.pop("pidany")
             allp = sorted(sim.kernel.procs) + [4242]
